@@ -1,2 +1,4 @@
 import Driver.Engine
-def main : IO Unit := TF.Driver.run [TF.Driver.handleEngine]
+import Driver.C01Hyps
+import Driver.EngineHyps
+def main : IO Unit := TF.Driver.run [TF.Driver.handleC01Hyps, TF.Driver.handleEngineHyps, TF.Driver.handleEngine]
